@@ -20,8 +20,13 @@
 #include "rsv_case.h"
 #include "rsv_rt.h"
 #include "rt_common.h"
-
+#ifdef RSV_E4
+#include "e4_api.h"
+#include "fakempi/mpi.h"
+const char *rsv_harness_name = "h_mpi";
+#else
 const char *rsv_harness_name = "h_runtime";
+#endif
 int rsv_fork_mode = 1;
 unsigned rsv_default_tape_len = 300;
 const char *rsv_rule =
@@ -47,7 +52,11 @@ const char *rsv_class_names[RSV_NCLS] = {
     [K_LIB_DRAWS] = "library_rng_draws", [K_MEM_OPS] = "model_memory_ops", [K_OTHER_PROP_FAIL] = "other_property_oracle_failed",
     [K_HANGS] = "hangs", [K_STEPS_K] = "scheduler_ksteps", [K_SWITCHES_K] = "context_kswitches", [K_COMMITTED] = "committed_events_checked",
     [K_GVT_OPEN_AT_STOP] = "gvt_round_open_at_stop", [K_STATS_RECORDS] = "stats_records", [K_RB_DIGESTS] = "rollback_digests_checked",
-    [K_LEFTOVER] = "queue_leftovers_at_shutdown", [K_BUDGET] = "budget_inconclusive", [K_EARLY_END] = "ended_by_termination_time"};
+    [K_LEFTOVER] = "queue_leftovers_at_shutdown", [K_BUDGET] = "budget_inconclusive", [K_EARLY_END] = "ended_by_termination_time",
+    [K_RANKS] = "ranks", [K_REMOTE_SENT] = "remote_events_sent", [K_REMOTE_ANTI] = "remote_anti_messages", [K_EARLY_ANTI] = "anti_message_overtook_its_event",
+    [K_EARLY_MATCH] = "event_annihilated_by_stored_early_anti", [K_REMOTE_ANTI_MATCHED] = "remote_anti_matched_processed_event",
+    [K_NET_DELAYED] = "network_messages_delayed", [K_NET_OVERTAKES] = "network_stream_overtakes", [K_NET_TEST_SKIPPED] = "collective_completions_delayed",
+    [K_NET_LEFTOVER] = "network_messages_never_received", [K_CROSS_RANK_REF] = "runs_with_several_ranks"};
 
 struct rt_ctx RT;
 static char PROP[8] = "C01";
@@ -88,6 +97,10 @@ static void decode_spec(struct tape *t, struct gm_spec *g)
 	g->zero_delay = (uint8_t[]){0, 20, 60, 120}[t_choice(t, 4)];
 	g->send_prob = (uint8_t[]){110, 60, 150, 200}[t_choice(t, 4)];
 	g->dest_mode = (uint8_t)t_choice(t, 5);
+#ifdef RSV_E4
+	if(g->dest_mode >= 3 && t_prob(t, 200))
+		g->dest_mode = (uint8_t)t_choice(t, 2); /* cross-rank traffic */
+#endif
 	g->payload_mode = (uint8_t)t_choice(t, 4);
 	g->n_rules = (uint8_t)(2 + t_choice(t, 7));
 	g->hb_scale = (uint8_t[]){1, 1, 20, 100, 1, 7}[t_choice(t, 6)];
@@ -184,6 +197,21 @@ static void decode_cfg(struct tape *t, struct rt_cfg *c, const struct gm_spec *g
 	c->sched.budget = 20000000ULL;
 	c->sched.noprogress = getenv("RSV_NOPROGRESS") ? strtoull(getenv("RSV_NOPROGRESS"), NULL, 10) : 600000ULL;
 	c->sched.free_perturb_per_1024 = (unsigned[]){0, 20, 200}[t_choice(t, 3)];
+	c->ranks = 1;
+#ifdef RSV_E4
+	c->mode = c->sched.mode = RSV_MODE_DET; /* the in-process MPI is only defined under the baton scheduler */
+	c->serial = 0;
+	c->ranks = 1 + (1 + t_choice(t, 4)) % 4; /* exhausted tape: 2 ranks */
+	if(c->ranks > g->n_lps)
+		c->ranks = g->n_lps; /* a rank without LPs runs no thread and cannot take part in the reductions: outside the domain */
+	c->n_threads = 1 + t_choice(t, 3);      /* per rank */
+	c->stats = 0;
+	c->core_binding = 0;
+	c->net_delay_max = (unsigned[]){0, 200, 2000, 20000, 60}[t_choice(t, 5)];
+	c->net_delay_prob = (unsigned[]){128, 30, 255}[t_choice(t, 3)];
+	c->net_test_skip = (unsigned[]){0, 128, 230}[t_choice(t, 3)];
+	c->net_reorder = (unsigned[]){128, 0, 255}[t_choice(t, 3)];
+#endif
 }
 
 /* ---- hang handling --------------------------------------------------------------------------------------------- */
@@ -196,7 +224,7 @@ static void on_hang(const char *why)
 	size_t o = 0;
 	int n = rsv_nthreads_created();
 	for(int i = 0; i < n && o + 40 < sizeof sig; i++)
-		o += (size_t)snprintf(sig + o, sizeof sig - o, "%s[thr%d rid%d %s site=%d stage=%d]", i ? " " : "", i, rsv_thread_rid(i),
+		o += (size_t)snprintf(sig + o, sizeof sig - o, "%s[thr%d rank%d rid%d %s site=%d stage=%d]", i ? " " : "", i, rsv_thread_rank(i), rsv_thread_rid(i),
 		    rsv_thread_done(i) ? "done" : "live", rsv_last_site(i), rsv_last_stage(i));
 	res->cls[K_HANGS]++;
 	res->cls[K_STEPS_K] = rsv_steps() / 1000;
@@ -216,6 +244,22 @@ static void on_hang(const char *why)
 		rsv_emit_and_exit(res);
 	_exit(78);
 }
+
+#ifdef RSV_E4
+static struct simulation_configuration e4_conf;
+static int e4_rc[E4_MAXR];
+static void *rank_main(void *arg)
+{
+	int k = (int)(intptr_t)arg;
+	rsv_set_rank(k);
+	if(e4_RootsimInit(k, &e4_conf)) {
+		e4_rc[k] = -100;
+		return NULL;
+	}
+	e4_rc[k] = e4_RootsimRun(k);
+	return NULL;
+}
+#endif
 
 /* ---- the case ---------------------------------------------------------------------------------------------------- */
 int rsv_case(const uint8_t *tape, size_t len, struct rsv_result *res)
@@ -253,8 +297,8 @@ int rsv_case(const uint8_t *tape, size_t len, struct rsv_result *res)
 	    g->time_mode, g->lookahead_mode, g->zero_delay, g->send_prob, g->dest_mode, g->payload_mode, g->n_rules, g->hb_scale);
 	for(unsigned i = 0; i < g->n_lps && i < 12; i++)
 		rsv_sample(res, "%s%u%s", i ? "," : "", g->goal[i], g->t0_zero[i] ? "@0" : "");
-	rsv_sample(res, "] stop=(%d,%u) | %s thr=%u ckpt=%u gvt=%u tt=%g bind=%d stats=%d seed=%llu | sched seed=%llu sw=%u burst=%u/%u hot=%#x div=%u batch=%u | ref ev=%zu",
-	    g->stop_lp, g->stop_at, c->serial ? "serial" : c->mode == RSV_MODE_DET ? "DET" : "FREE", c->n_threads, c->ckpt_interval,
+	rsv_sample(res, "] stop=(%d,%u) | ranks=%u net=%u/%u/%u/%u | %s thr=%u ckpt=%u gvt=%u tt=%g bind=%d stats=%d seed=%llu | sched seed=%llu sw=%u burst=%u/%u hot=%#x div=%u batch=%u | ref ev=%zu",
+	    g->stop_lp, g->stop_at, c->ranks, c->net_delay_max, c->net_delay_prob, c->net_test_skip, c->net_reorder, c->serial ? "serial" : c->mode == RSV_MODE_DET ? "DET" : "FREE", c->n_threads, c->ckpt_interval,
 	    c->gvt_period, c->termination_time, c->core_binding, c->stats, (unsigned long long)c->prng_seed,
 	    (unsigned long long)c->sched.seed, c->sched.switch_per_1024, c->sched.burst_per_64k, c->sched.burst_max, c->sched.hot_sites,
 	    c->sched.clock_div, c->sched.batch, RT.ref.total_events);
@@ -276,12 +320,30 @@ int rsv_case(const uint8_t *tape, size_t len, struct rsv_result *res)
 	    .core_binding = c->core_binding, .serial = c->serial, .dispatcher = (ProcessEvent_t)gm_ProcessEvent,
 	    .committed = (CanEnd_t)gm_CanEnd};
 	res->cls[c->serial ? K_RUNS_SERIAL : c->mode == RSV_MODE_DET ? K_RUNS_DET : K_RUNS_FREE] = 1;
-	res->cls[K_THREADS_GT_LPS] = !c->serial && c->n_threads > g->n_lps;
+	res->cls[K_THREADS_GT_LPS] = !c->serial && c->n_threads * c->ranks > g->n_lps;
+	int rc = 0;
+#ifdef RSV_E4
+	{
+		struct fm_cfg fc = {.nranks = (int)c->ranks, .delay_max = c->net_delay_max, .delay_prob = c->net_delay_prob,
+		    .test_skip = c->net_test_skip, .reorder_streams = c->net_reorder};
+		fm_configure(&fc);
+		e4_conf = conf;
+		res->cls[K_RANKS] = c->ranks;
+		res->cls[K_CROSS_RANK_REF] = c->ranks > 1;
+		for(unsigned k = 0; k < c->ranks; k++)
+			rsv_spawn(rank_main, (void *)(intptr_t)k);
+		rsv_join_all();
+		for(unsigned k = 0; k < c->ranks; k++)
+			if(e4_rc[k])
+				rc = e4_rc[k];
+	}
+#else
 	if(RootsimInit(&conf)) {
 		rt_fail(PROP, "RootsimInit refused a valid configuration");
 		return res->verdict;
 	}
-	int rc = RootsimRun();
+	rc = RootsimRun();
+#endif
 	rsv_on_hang = NULL;
 	res->cls[K_STEPS_K] = rsv_steps() / 1000;
 	res->cls[K_SWITCHES_K] = rsv_switches() / 1000;
